@@ -205,7 +205,22 @@ def judge(ctx, case):
             for _, lab in variants_:
                 ctx.count("class:xcube_layout=" + lab)
             cube = catii.xcube([v for v, _ in variants_], interacting_shape=shape)
-        res = numpy.asarray(aggr.call_any(cube, agg, case, rma))
+        # entry point and knobs are part of the configuration: every fourth stacked cube goes through calculate([...])
+        # with an aggregate object built without its timing bookkeeping (index cube), every seventh has its debug
+        # switch on (output discarded)
+        kn = case["n"] + len(dense) + sum(case["commons"])
+        via = "calculate_untraced" if kn % 4 == 1 else "shortcut"
+        if via != "shortcut" and kind == "ccube" and agg in aggr.SHARED:
+            ctx.count("class:via_calculate_with_untraced_function_objects")
+        if kn % 7 == 3 and case["n"] <= 12 and int(numpy.prod(sshape or (1,))) <= 12 and int(numpy.prod(shape or (1,))) <= 64:
+            cube.debug = True
+            ctx.count("class:debug_switch_on")
+            import contextlib, io
+
+            with contextlib.redirect_stdout(io.StringIO()):
+                res = numpy.asarray(aggr.call_any(cube, agg, case, rma, via=via))
+        else:
+            res = numpy.asarray(aggr.call_any(cube, agg, case, rma, via=via))
         ctx.evaluation({"d": dense, "c": case["commons"], "a": agg, "k": kind, "f": case["fact"], "w": case["weights"],
                         "i": case["ignore_missing"], "p": case.get("p")}, nt)
         feat = "%s:%s:axes=%s" % (kind, agg, ",".join(str(d.ndim) for d in dense))
